@@ -61,8 +61,14 @@ theorem C16Q_round_progress (w : World) (h : Ready w) :
     (mu (round w).sess.data.outbound < mu w.sess.data.outbound ∨ (round w).sess.data.outbound.isQuiescent = true) :=
   ⟨(round_ready w h).1, (round_ready w h).2.1⟩
 
-/-- **Bounded quiescence.** Let a program have produced `w`, in the setting `Setting w` (live, untorn,
-nothing over the size limit, `deficit` clear, broker up to date, …). Then there is `n ≤ mu` — so
+/-- **Bounded quiescence.** Let a program have produced `w`, in the setting `Setting w` (live,
+nothing over the size limit, `deficit` clear, broker up to date, …). The broker of the loop answers
+what the transmission log says was completed on the current transport; that is what a real broker
+parses only if the transport is not torn (no CONNECT / QoS 0 PUBLISH / DISCONNECT write was dropped on
+it: `tearsPacket w.fut = false`, `w.nets.length ∉ w.tornNets` — the hypotheses of
+`C16Q_nothing_sent_twice`, under which `C02_logged_packets_are_on_the_wire` identifies log and wire).
+`Setting` does not ask for it: on a torn transport the statement is about the client's bookkeeping
+against that idealised broker, not about a broker that reads the bytes. Then there is `n ≤ mu` — so
 `n ≤ 1 + 2·|retained| + |release|` — such that after `n` rounds
 
 * the session is quiescent: control, retained and release queue are empty;
